@@ -49,6 +49,32 @@ pub struct Shared {
     pub failed: bool,
     /// unified chronological log (hook events are drained into it before every stream event)
     pub ulog: Option<Arc<Mutex<Vec<String>>>>,
+    /// the number of the connection this stream is (several connections of one client object): its events read `rd@k:n`
+    pub tag: Option<usize>,
+}
+
+// the connection whose reader task is being polled right now (set by `Tagged`): the reader's trace-point events are
+// attributed to it
+thread_local! { pub static CUR_CONN: std::cell::Cell<Option<usize>> = std::cell::Cell::new(None); }
+
+/// a reader task's future, polled with `CUR_CONN` set to its connection
+pub struct Tagged<F> {
+    pub conn: usize,
+    pub ulog: Arc<Mutex<Vec<String>>>,
+    pub fut: Pin<Box<F>>,
+}
+
+impl<F: std::future::Future> std::future::Future for Tagged<F> {
+    type Output = F::Output;
+    fn poll(mut self: Pin<&mut Self>, cx: &mut Context<'_>) -> Poll<F::Output> {
+        // what happened before this poll belongs to whoever ran before
+        sync_hooks(&self.ulog);
+        CUR_CONN.with(|c| c.set(Some(self.conn)));
+        let r = self.fut.as_mut().poll(cx);
+        sync_hooks(&self.ulog);
+        CUR_CONN.with(|c| c.set(None));
+        r
+    }
 }
 
 /// move the library's trace-point events (feature verif-hooks) into the unified log
@@ -59,13 +85,14 @@ pub fn sync_hooks(ulog: &Arc<Mutex<Vec<String>>>) {
         return;
     }
     let mut u = ulog.lock().unwrap();
+    let at = CUR_CONN.with(|c| c.get()).map(|c| format!("@{}", c)).unwrap_or_default();
     for e in evs {
         u.push(match e {
             Event::Registered(h) => format!("reg:{}", h),
             Event::SendRefused(h) => format!("refused:{}", h),
-            Event::Removed(h, f) => format!("rm:{}:{}", h, f as u8),
-            Event::Delivered(h, ok) => format!("dl:{}:{}", h, ok as u8),
-            Event::ReaderStopped => "stop".to_string(),
+            Event::Removed(h, f) => format!("rm{}:{}:{}", at, h, f as u8),
+            Event::Delivered(h, ok) => format!("dl{}:{}:{}", at, h, ok as u8),
+            Event::ReaderStopped => format!("stop{}", at),
         });
     }
 }
@@ -192,7 +219,8 @@ impl AsyncRead for Scripted {
                     }
                     if let Some(u) = s.ulog.clone() {
                         sync_hooks(&u);
-                        u.lock().unwrap().push(format!("rd:{}", k));
+                        let at = s.tag.map(|c| format!("@{}", c)).unwrap_or_default();
+                        u.lock().unwrap().push(format!("rd{}:{}", at, k));
                     }
                     if k < d.len() {
                         s.rd.push_front(REv::Data(d[k..].to_vec()));
@@ -245,7 +273,8 @@ impl AsyncWrite for Scripted {
                 s.written.extend_from_slice(&data[..k]);
                 if let Some(u) = s.ulog.clone() {
                     sync_hooks(&u);
-                    u.lock().unwrap().push(format!("wr:{}", k));
+                    let at = s.tag.map(|c| format!("@{}", c)).unwrap_or_default();
+                    u.lock().unwrap().push(format!("wr{}:{}", at, k));
                 }
                 if s.trace_on {
                     s.trace.push(format!("wr {}", k));
